@@ -379,7 +379,7 @@ class SED(object):
         sed_wav = self.wav.to(u.micron).value
 
         # If any apertures are larger than the defined max, reset to max
-        apertures[apertures > sed_apertures.max()] = sed_apertures.max() * 0.999
+        apertures[apertures > sed_apertures.max()] = sed_apertures.max()
 
         # If any apertures are smaller than the defined min, raise Exception
         if np.any(apertures < sed_apertures.min()):
@@ -400,6 +400,10 @@ class SED(object):
         # Extrapolate on either side
         apertures[np.log10(sed_wav) < log10_ap_interp.x[0]] = 10. ** log10_ap_interp.y[0]
         apertures[np.log10(sed_wav) > log10_ap_interp.x[-1]] = 10. ** log10_ap_interp.y[-1]
+
+        # 10 ** log10(x) can exceed x by rounding, so clamp to the largest
+        # aperture again to stay inside the interpolation range
+        apertures = np.minimum(apertures, sed_apertures.max())
 
         # Interpolate and return only diagonal elements
         return flux_interp(apertures).diagonal()
